@@ -22,7 +22,7 @@ ASSUMPTIONS = ['polling step of the kill loop is 0.1 s (kill_process); tolerance
                'a before_signal hook that vetoes the stop signal is covered by C14']
 
 CAUSES = ['stop', 'restart', 'decr', 'reload', 'reload-seq', 'reload-term', 'kill', 'kill-signum', 'kill-gt',
-          'kill-pid', 'max_age', 'set-np']
+          'kill-gt0', 'kill-gt-small', 'kill-pid', 'max_age', 'set-np']
 SIGS = {'TERM': signal.SIGTERM, 'INT': signal.SIGINT, 'QUIT': signal.SIGQUIT, 'USR1': signal.SIGUSR1}
 TOL = 1e-4
 STEP = 0.1
@@ -133,6 +133,12 @@ def run(scn, ch):
         elif c == 'kill-gt':
             exp_g = 0.5
             world.request('kill', name='a', graceful_timeout=0.5)
+        elif c == 'kill-gt0':
+            exp_g = 0.0
+            world.request('kill', name='a', graceful_timeout=0)
+        elif c == 'kill-gt-small':
+            exp_g = 0.05
+            world.request('kill', name='a', graceful_timeout=0.05)
         elif c == 'kill-pid':
             world.request('kill', name='a', pid=initial[0])
         elif c == 'set-np':
